@@ -933,6 +933,7 @@ func c10HistRun(sc c10HistScenario, keys []eckg.LocalPartySaveData) (res c10Hist
 				res.Inconcl = fmt.Sprintf("step %d: could not build a true statement for %s: %v %s", n+1, sys.name, err, pan)
 				return
 			}
+			emu.statement(it.st) // the prover works on its own statement objects
 			pan = pcCall(func() { it.pf, err = sys.prove(emu.session(buf), it.st, it.wit, lib) })
 			if pan != "" || err != nil || it.pf == nil {
 				res.Drift = append(res.Drift, fmt.Sprintf("the prover produced no proof [%s]: err=%v panic=%q", ctxs(n, st), err, core.Short(pan, 120)))
@@ -1314,7 +1315,7 @@ func c10HistRunAll(batches [][]c10HistScenario, parallel int) ([][]c10HistResult
 			bz, _ := json.Marshal(j)
 			cases[i] = sandbox.Case{ID: fmt.Sprintf("batch-%03d", i), Payload: bz}
 		}
-		rs, err := sandbox.Run("c10-hist-worker", cases, parallel, 20*time.Minute)
+		rs, err := sandbox.Run("c10-hist-worker", cases, parallel, 45*time.Minute) // one case = one batch
 		if err != nil {
 			return nil, err
 		}
@@ -1398,6 +1399,19 @@ type hItemRef struct {
 	Step hStep
 }
 
+// hBrief: a history in one line
+func hBrief(h *hHist) string {
+	var out []string
+	for _, st := range h.Steps {
+		if st.Op == "prove" {
+			out = append(out, fmt.Sprintf("prove#%d(kind %d, buf %d %s, sess %v)", st.Item, st.Kind, st.Buf, st.How, st.Sess))
+		} else {
+			out = append(out, fmt.Sprintf("verify#%d(buf %d %s, stm %s, recv %s)", st.Item, st.Buf, st.How, st.Stm, st.Hd))
+		}
+	}
+	return strings.Join(out, " ")
+}
+
 func hItemsOf(h *hHist) []hItemRef {
 	var out []hItemRef
 	for n, st := range h.Steps {
@@ -1429,15 +1443,6 @@ func hCompat(tg bool, cv string) []string {
 		}
 	}
 	return out
-}
-
-func hExposes(h *hHist, v string) bool {
-	for _, e := range h.Exposes {
-		if e == v {
-			return true
-		}
-	}
-	return false
 }
 
 type hPlanner struct {
@@ -1481,7 +1486,7 @@ func c10PlanSim(ctx *core.Ctx, sim []hHist, par int) (hPlan, error) {
 	var pl hPlan
 	pp := &hPlanner{ctx: ctx, pairs: c13Pairs(), n: 5000}
 	var cheap, costly []c10HistScenario
-	nsim := ctx.Pick(90, 1200)
+	nsim := ctx.Pick(90, 900)
 	if nsim > len(sim) {
 		nsim = len(sim)
 	}
@@ -1543,11 +1548,13 @@ func c10PlanMC(ctx *core.Ctx, mc hMCOut, par int) (hPlan, error) {
 	}
 	var cheap, costly []c10HistScenario
 	for _, name := range hTagged {
-		per := ctx.Pick(1, 6)
-		if hCheap[name] {
-			per = ctx.Pick(8, 60)
-		}
 		for _, v := range hVariants {
+			per := ctx.Pick(1, 6)
+			if hCheap[name] {
+				per = ctx.Pick(8, 60)
+			} else if v == "stmt" || v == "prefix" {
+				per = ctx.Pick(2, 8) // the classes with the narrowest histories
+			}
 			for r := 0; r < per; r++ {
 				h := &mc.Directed[byVar[v][rng.Intn(len(byVar[v]))]]
 				sc := pp.mk(h, "directed", []string{name}, "")
@@ -1662,7 +1669,7 @@ func c10HistPhase(ctx *core.Ctx, keys []eckg.LocalPartySaveData) *hPhase {
 	done := make(chan struct{})
 	go func() {
 		defer close(done)
-		if ph.Sim, ph.SimRes, simErr = c10HistSim(ctx.Seed*131+10, ctx.Pick(100, 1300), 7); simErr != nil {
+		if ph.Sim, ph.SimRes, simErr = c10HistSim(ctx.Seed*131+10, ctx.Pick(100, 1000), 7); simErr != nil {
 			simErr = fmt.Errorf("ProofsHist.tla (-simulate): %v", simErr)
 			return
 		}
@@ -1787,7 +1794,7 @@ func c10HistJudge(ctx *core.Ctx, cov *core.Cov, ph *hPhase) error {
 			}
 			if k := r.Sc.Src + strings.Join(r.Sc.Sys, "+"); !sampled[k] && len(sampled) < 6 {
 				sampled[k] = true
-				cov.Sample(map[string]any{"history_scenario": r.Sc, "outcomes": r.Outs, "seconds": r.Seconds}, 16)
+				cov.Sample(map[string]any{"history_scenario": r.Sc.key(), "calls": hBrief(r.Sc.Hist), "kinds": r.Sc.Hist.Kinds, "exposes_variants": r.Sc.Hist.Exposes, "outcomes": r.Outs, "remote_verifier": r.Remote, "seconds": r.Seconds}, 16)
 			}
 		}
 	}
